@@ -106,6 +106,25 @@ let interps_string l = join " " interp_string l
 let handles_string l = sl l
 
 (* ---------- ADF cases ---------- *)
+(* flags describing the code that exists (see DESIGN.md section 6): changed together with the fix: commits *)
+let flag_stop_on_err = ref true
+let flag_rand_filtered = ref false
+let ng_budget = ref 300000
+let draws : n list ref = ref []
+let heuristic_of_words (h : string) (rest : string list) : heuristic =
+  match h with
+  | "Simple" -> HSimple
+  | "MinModMinPathsMaxVarImp" -> HMinPathsMaxImp
+  | "MinModMaxVarImpMinPaths" -> HMaxImpMinPaths
+  | "Rand" -> HRand
+  | "Static" ->
+    (* Static <order comma list> <vals as 0/1 string> *)
+    (match rest with
+     | [o; v] -> HStatic (List.map (fun x -> nat_of_int (int_of_string x)) (String.split_on_char ',' o),
+                          List.init (String.length v) (fun i -> v.[i] = '1'))
+     | _ -> failwith "bad Static heuristic")
+  | _ -> failwith ("unknown heuristic " ^ h)
+
 type adf_state = { mutable st : store; mutable ac : n list; names : string list; c : cfg }
 
 let run_adf id (lines : string list) =
@@ -117,6 +136,9 @@ let run_adf id (lines : string list) =
     | ["text"] -> text := ""
     | ["sort"; s] -> sort := s
     | ["cfg"; s] -> cfgs := s
+    | "draws" :: l -> draws := List.map n_of_string l
+    | ["seed"; _] -> ()
+    | ["flags"; a; b] -> flag_stop_on_err := (a = "1"); flag_rand_filtered := (b = "1")
     | "q" :: rest -> queries := rest :: !queries
     | [] -> ()
     | _ -> failwith ("bad adf line: " ^ line)) lines;
@@ -143,6 +165,18 @@ let run_adf id (lines : string list) =
           | ["stable"] -> let (s, l) = unopt (stable c a.st a.ac) in a.st <- s; emit id qid ("stable " ^ interps_string l)
           | ["stablepre"] -> let (s, l) = unopt (stable_with_prefilter c a.st a.ac) in a.st <- s; emit id qid ("stablepre " ^ interps_string l)
           | ["table"] -> emit id qid ("table " ^ sn a.st.size ^ " " ^ table_string a.st)
+          | ["acs"] -> emit id qid ("acs " ^ handles_string a.ac)
+          | ["stmca"] -> let (s, l) = unopt (stable_count c heu_a a.ac !flag_stop_on_err a.st) in a.st <- s; emit id qid ("stmca " ^ interps_string l)
+          | ["stmcb"] -> let (s, l) = unopt (stable_count c heu_b a.ac !flag_stop_on_err a.st) in a.st <- s; emit id qid ("stmcb " ^ interps_string l)
+          | "stmng" :: h :: rest | "twoval" :: h :: rest ->
+            let two = (List.hd q = "twoval") in
+            let heu = heuristic_of_words h rest in
+            (match nogood_search c a.ac heu !flag_rand_filtered two (nat_of_int !ng_budget) a.st !draws with
+             | Some (s, l) -> a.st <- s; emit id qid (List.hd q ^ " " ^ interps_string l)
+             | None -> emit id qid (List.hd q ^ " NONTERMINATION"))
+          | ["counts"; m] ->
+            let l = List.map (fun t -> let (s, r) = models c a.st t (m = "1") in a.st <- s; r) a.ac in
+            emit id qid ("counts " ^ join " " (fun (x, y) -> sn x ^ "/" ^ sn y) l)
           | _ -> failwith ("bad adf query: " ^ String.concat " " q)) (List.rev !queries)
       with NoFuel -> emit id "NOFUEL" "")
   end
